@@ -133,6 +133,11 @@ func deepSnapshot(x any) (visible string, withCap string) {
 				}
 				vis.WriteString("}")
 				capb.WriteString("}")
+			} else {
+				// optional scalars (document type number, name, description)
+				vis.WriteString("&")
+				capb.WriteString("&")
+				rec(v.Elem(), depth+1)
 			}
 		case reflect.Slice:
 			if v.IsNil() {
@@ -309,8 +314,62 @@ type aliasOperand struct {
 
 func docOf(op M) *sbom.Document {
 	nl := NLOf(op["a"])
-	d := &sbom.Document{Metadata: &sbom.Metadata{Id: "urn:uuid:0", Version: "1", Name: "doc"}, NodeList: nl}
+	d := &sbom.Document{Metadata: metaOf(op["meta"]), NodeList: nl}
 	return d
+}
+
+// metaOf builds document metadata; "meta" may add document types (type number or -1 for none,
+// name, description), tools and authors
+func metaOf(v any) *sbom.Metadata {
+	md := &sbom.Metadata{Id: "urn:uuid:0", Version: "1", Name: "doc"}
+	m, ok := v.(M)
+	if !ok {
+		return md
+	}
+	for _, t := range asList(m["types"]) {
+		l := asList(t)
+		if len(l) != 3 {
+			continue
+		}
+		dt := &sbom.DocumentType{}
+		if n := asInt(l[0]); n >= 0 {
+			ty := sbom.DocumentType_SBOMType(n)
+			dt.Type = &ty
+		}
+		if s := asStr(l[1]); s != "" {
+			dt.Name = &s
+		}
+		if s := asStr(l[2]); s != "" {
+			dt.Description = &s
+		}
+		md.DocumentTypes = append(md.DocumentTypes, dt)
+	}
+	for _, t := range asList(m["tools"]) {
+		md.Tools = append(md.Tools, &sbom.Tool{Name: asStr(t), Version: "1", Vendor: "v"})
+	}
+	for _, a := range asList(m["authors"]) {
+		if am, ok := a.(M); ok {
+			md.Authors = append(md.Authors, PersonOf(am))
+		}
+	}
+	return md
+}
+
+func (g *G) docMeta() M {
+	types := []any{}
+	for g.Chance(0.6) && len(types) < 4 {
+		// in range, OTHER with a name, no type at all, and numbers no release defines
+		types = append(types, []any{float64(g.Pick2([]int{0, 1, 3, 5, 8, -1, 9, 42})), g.Pick([]string{"", "Custom", "build"}), g.Pick([]string{"", "d"})})
+	}
+	tools := []any{}
+	for g.Chance(0.4) && len(tools) < 3 {
+		tools = append(tools, g.Pick([]string{"t1", "t2", ""}))
+	}
+	authors := []any{}
+	for g.Chance(0.4) && len(authors) < 3 {
+		authors = append(authors, g.Person(1))
+	}
+	return M{"types": types, "tools": tools, "authors": authors}
 }
 
 // runAliasOp executes the operation and returns operands and results (as real objects).
@@ -601,7 +660,7 @@ func ExecAlias(op M) (res any) {
 		}
 		var doc *sbom.Document
 		if d, ok := op["doc"].(M); ok {
-			doc = &sbom.Document{Metadata: &sbom.Metadata{Id: "urn:uuid:0", Version: "1", Name: "doc"}, NodeList: NLOf(d)}
+			doc = &sbom.Document{Metadata: metaOf(op["meta"]), NodeList: NLOf(d)}
 			padCapacity(doc, 2)
 		}
 		ops := readOnlyOps(a, b, n, m, doc)
@@ -761,7 +820,7 @@ func aliasGen(g *G, tier string) []M {
 					b["roots"] = rb
 				}
 			}
-			ops = append(ops, M{"op": "snap", "a": a, "b": b, "n": g.matchNode("p1"), "m": g.Node("p2", 0.6), "doc": doc})
+			ops = append(ops, M{"op": "snap", "a": a, "b": b, "n": g.matchNode("p1"), "m": g.Node("p2", 0.6), "doc": doc, "meta": g.docMeta()})
 		}
 	}
 	return ops
